@@ -71,7 +71,7 @@ def gen_buffers(thorough):
                 s.op('*', 'buffer_attach', size=1 << 20)
                 tag = 0; slot = 0
                 for n in sizes_for(xt):
-                    for lay in (LAYS if thorough else [None, 'vec:1:2', 'cont2']):
+                    for lay in (LAYS if thorough else [None, 'vec:1:2', 'cont2', 'rsz:1:2']):
                         if lay and n > 1025: continue
                         for path in ('blocking', 'iput-wait_all', 'iput-cancel', 'bput-wait_all', 'bput-poke', 'varn', 'ivarn-wait', 'vard', 'varm-pad', 'erange', 'eiomismatch', 'indep-wait'):
                             tag = tag % 90 + 1
